@@ -55,6 +55,14 @@ pub fn check(t: &Trace<'_>, out: &mut CaseOut) -> bool {
             }
         }
         prev_ids = ids;
+        // only packets that some acknowledgement can free may be kept: a QoS 0 PUBLISH shares
+        // the arena for the time of its call and must never stay in it
+        for (pid, bytes) in &p.arena {
+            if bytes.first().is_some_and(|b| b >> 4 == 3 && b & 0x06 == 0) {
+                out.violations.push(viol("C17", "C17/qos0-publish-kept-in-arena", format!("probe at event {}: the retained entry with identifier {} is a QoS 0 PUBLISH ({:02x?}...): no acknowledgement will ever free its {} bytes and its slot", ev, pid, &bytes[..bytes.len().min(12)], bytes.len())));
+                return true;
+            }
+        }
         // arena bytes == bytes of the first transmission (DUP bit masked)
         for (pid, bytes) in &p.arena {
             let Some(msg) = m.msgs.iter().find(|x| x.pid == *pid && x.epoch == t.epoch_at[ev] && x.ev_accept <= ev && x.ended_ev.is_none_or(|x| x >= ev)) else { continue };
